@@ -250,6 +250,12 @@ def qcvar(ctx, run):
         if isinstance(s, Op) and s.op == "add" and isinstance(s.args[0], Op) and s.args[0].op in ("loop", "recursive_call"):
             top = s.args[0]
             break
+    # what bisect handed back (whatever point of the final bracket it returns): the value of its outermost exit event
+    exits = [e["value"] for e in r["events"] if e["kind"] == "exit" and e["callee"].endswith("bisect.bisect") and isinstance(e.get("value"), (Op, Sym))]
+    for cand in reversed(exits):
+        if any(s is cand or s == cand for s in walk(val)):
+            top = cand
+            break
     if top is None:
         raise AnalysisError("quadratic_cvar: cannot locate the bisection result in the returned value")
     from ..term import subst
